@@ -314,6 +314,15 @@ def check_edate(case):
     env = Env(vars={'v_a': datetime.datetime.fromordinal(o), 'v_k': k})
     A = spell(o, case['style'], 'v_a')
     K = 'v_k' if case['kvar'] else (str(k) if k >= 0 else '-%d' % -k)
+    how = (o + k) % 7
+    if how == 0:
+        # the same whole number of months arriving as a float (a quotient, a decimal literal, a host float) or as text
+        env = Env(vars={'v_a': datetime.datetime.fromordinal(o), 'v_k': float(k)})
+        K = 'v_k' if case['kvar'] else ('%d.0' % k if k >= 0 else '-%d.0' % -k)
+    elif how == 1:
+        K = '(%d/2)' % (2 * k) if k >= 0 else '(-%d/2)' % (-2 * k)
+    elif how == 2 and case['kvar']:
+        env = Env(vars={'v_a': datetime.datetime.fromordinal(o), 'v_k': str(k)})
     f = 'EDATE(%s,%s)' % (A, K)
     if y < 1900 or y > 9999:
         expect_err(f, '#NUM!', env)
